@@ -301,15 +301,15 @@ PROPS = {
         props_file="Props/C14.v",
         families=[("multi", ("dd",), 300)],
         projection="C14", monitors=["C14"],
-        level_note="The walk's exactness and the panic-iff-cycle rule are proved for every graph and every cycle length; that the tracked graph holds the edge of every in-flight ask made from a hook is tied by the correspondence (graph read through the --cfg rsactor_verif hook at every quiescent point), not yet by an invariant proof.",
+        level_note="Proved for every reachable state: the walk is exact for every graph and cycle length, every unfinished ask begun by a hook is tracked and has its edge (keys unique), hence any chain of such asks leading back to the asker makes the ask panic (C14_complete_run; premise: fewer than 2^64-1 spawns, so ids are unique). 'Sequential' is built into the model: a hook awaits at most one operation at a time; concurrent asks from one hook (join!) are outside it. The real graph is also read through the --cfg rsactor_verif hook at every quiescent point and compared.",
     ),
     "C15": dict(
         props_file="Props/C15.v",
         families=[("multi", ("dd",), 300)],
         projection="C15", monitors=["C15"],
         classify=monitors.classify_stale,
-        level_text="The full statement is refuted in the model by a closed witness (C15_refuted) that replays on the real code (known finding, KNOWN_FINDINGS.txt); proved: soundness with respect to the tracked graph (partial: modulo edges of answered-but-not-yet-resumed asks) and that non-actor callers are never tracked; the wait-for graph is compared with the model at every quiescent point through the verification hook (no residue).",
-        level_note="Partial: soundness is relative to the tracked graph; 'no residue' is tied by the correspondence and the quiescence monitor, not yet by an invariant proof.",
+        level_text="The full statement is refuted in the model by a closed witness (C15_refuted) that replays on the real code (known finding, KNOWN_FINDINGS.txt). Proved for every reachable state (ids unique): a detection panic implies a chain of tracked edges; every tracked edge is an operation begun by the running hook of the key's actor that has not yet returned to it (so the only unsoundness is an answered-but-not-yet-resumed ask); non-actor callers are never tracked; no residue - the graph is empty once every operation has returned, and an actor whose hook awaits nothing has no edge. The real wait-for graph is compared with the model's at every quiescent point through the verification hook.",
+        level_note="Partial only in that the property as stated is false of the code (known finding); everything else is an invariant proof plus correspondence.",
     ),
     "C16": dict(
         props_file="Props/C16.v",
